@@ -120,7 +120,13 @@ state of `base`, if
 
 Nothing is assumed about `base.pending`, `base.attrs` (the subclass starts from an empty namespace,
 `startClass`) or about `ref`s in `p` (an unresolved name yields the empty list; a resolved one lists
-positions created by `p` itself). -/
+positions created by `p` itself).
+
+Outside the statement, and false of the library (known finding D7c, `c16.probe_d7c`): a body that
+refers to an *attribute of the base class* — `class Sub(Base): again = Base.go`. The body language of
+the model cannot say it (a `ref` resolves in the subclass's own, initially empty, namespace); the
+library takes the inherited `Event` for a placeholder and renames it inside the transitions it shares
+with the base. -/
 theorem C16_subclass_frame_partial (base : Cls) (p : List Stmt)
     (hsrc : ∀ st ∈ p, ∀ x ∈ st.srcs, x ≠ .any ∧ ∀ s ∈ base.states, x ≠ .st s.name)
     (hph : ∀ t ∈ base.trans, ∀ e ∈ t.events, ∃ id tl, e = EvRef.real id tl)
